@@ -592,6 +592,176 @@ macro_rules! g_blocks1 {
     };
 }
 
+/// C04 split in three queries (used where the cipher runs with an uninterpreted leaf: the pairwise consistency
+/// constraints grow with the square of the number of leaf applications, so each query holds at most 2*NB block
+/// computations).  Together the three parts state exactly what g_blocks1 states.
+///   part b2b:     multi-block b2b with n = NB equals the per-block in-place reference; input unchanged; n = 0 and
+///                 mismatched lengths write nothing
+///   part inplace: multi-block in place with n = NB (and n = 0) equals the reference
+///   part short:   n = NB-1 (b2b and in place: blocks >= n untouched) and the single-block b2b call
+#[allow(unused_macros)]
+macro_rules! g_blocks_part {
+    ($name:ident, $ty:ty, $bs:expr, $nb:expr, $valid:expr, $dir:ident, $part:ident $(, stubs: [$(($o:path, $r:path)),*])?) => {
+        verif_harness! {
+            name: $name,
+            bytes: core::mem::size_of::<$ty>() + $nb * $bs + 1,
+            unwind: 5000,
+            $(stubs: [$(($o, $r)),*],)?
+            prop: |inp| {
+                use cipher::Block;
+                const S: usize = core::mem::size_of::<$ty>();
+                const NB: usize = $nb;
+                let valid: fn(&[u8]) -> bool = $valid;
+                vassume!(valid(&inp[..S]));
+                let mut a = core::mem::MaybeUninit::<$ty>::uninit();
+                generic::fill(&mut a, &inp[..S]);
+                let c = generic::as_ref(&a);
+                let mut x = [[0u8; $bs]; NB];
+                let mut j = 0;
+                while j < NB {
+                    x[j] = take(&inp[..], S + j * $bs);
+                    j += 1;
+                }
+                g_blocks_part!(@body $part, $ty, $bs, $dir, c, x)
+            }
+        }
+    };
+    (@refs $ty:ty, $bs:expr, $dir:ident, $c:ident, $x:ident, $upto:expr) => {{
+        let mut r: [cipher::Block<$ty>; NB] = [[0u8; $bs].into(); NB];
+        let mut j = 0;
+        while j < $upto {
+            r[j] = $x[j].into();
+            g_dir!($dir, block, $c, &mut r[j]);      // reference: in-place single-block call
+            j += 1;
+        }
+        r
+    }};
+    (@body b2b, $ty:ty, $bs:expr, $dir:ident, $c:ident, $x:ident) => {{
+        let r = g_blocks_part!(@refs $ty, $bs, $dir, $c, $x, NB);
+        let mut ins: [Block<$ty>; NB] = [[0u8; $bs].into(); NB];
+        let mut outs: [Block<$ty>; NB] = [[0xA5u8; $bs].into(); NB];
+        let mut j = 0;
+        while j < NB {
+            ins[j] = $x[j].into();
+            j += 1;
+        }
+        // n = 0 writes nothing
+        vcheck!(g_dir!($dir, blocks_b2b, $c, &ins[..0], &mut outs[..0]).is_ok());
+        j = 0;
+        while j < NB {
+            vcheck!(outs[j].0 == [0xA5u8; $bs]);
+            j += 1;
+        }
+        // mismatched lengths are rejected and write nothing
+        if NB >= 2 {
+            vcheck!(g_dir!($dir, blocks_b2b, $c, &ins[..1], &mut outs[..2]).is_err());
+            vcheck!(outs[0].0 == [0xA5u8; $bs] && outs[1].0 == [0xA5u8; $bs]);
+        }
+        vcheck!(g_dir!($dir, blocks_b2b, $c, &ins[..], &mut outs[..]).is_ok());
+        let mut ok = true;
+        j = 0;
+        while j < NB {
+            ok &= (ins[j].0 == $x[j]) & (outs[j] == r[j]);
+            j += 1;
+        }
+        Some(ok)
+    }};
+    (@body inplace, $ty:ty, $bs:expr, $dir:ident, $c:ident, $x:ident) => {{
+        let r = g_blocks_part!(@refs $ty, $bs, $dir, $c, $x, NB);
+        let mut bl: [Block<$ty>; NB] = [[0u8; $bs].into(); NB];
+        let mut j = 0;
+        while j < NB {
+            bl[j] = $x[j].into();
+            j += 1;
+        }
+        g_dir!($dir, blocks, $c, &mut bl[..0]);
+        j = 0;
+        while j < NB {
+            vcheck!(bl[j].0 == $x[j]);
+            j += 1;
+        }
+        g_dir!($dir, blocks, $c, &mut bl[..]);
+        let mut ok = true;
+        j = 0;
+        while j < NB {
+            ok &= bl[j] == r[j];
+            j += 1;
+        }
+        Some(ok)
+    }};
+    (@body short, $ty:ty, $bs:expr, $dir:ident, $c:ident, $x:ident) => {{
+        const M: usize = NB - 1;
+        let r = g_blocks_part!(@refs $ty, $bs, $dir, $c, $x, M);
+        let mut ins: [Block<$ty>; NB] = [[0u8; $bs].into(); NB];
+        let mut outs: [Block<$ty>; NB] = [[0xA5u8; $bs].into(); NB];
+        let mut j = 0;
+        while j < NB {
+            ins[j] = $x[j].into();
+            j += 1;
+        }
+        vcheck!(g_dir!($dir, blocks_b2b, $c, &ins[..M], &mut outs[..M]).is_ok());
+        let mut ok = true;
+        j = 0;
+        while j < NB {
+            ok &= ins[j].0 == $x[j];
+            if j < M { ok &= outs[j] == r[j]; } else { ok &= outs[j].0 == [0xA5u8; $bs]; }
+            j += 1;
+        }
+        let mut bl: [Block<$ty>; NB] = ins;
+        g_dir!($dir, blocks, $c, &mut bl[..M]);
+        j = 0;
+        while j < NB {
+            if j < M { ok &= bl[j] == r[j]; } else { ok &= bl[j].0 == $x[j]; }
+            j += 1;
+        }
+        // single-block b2b
+        let i0: Block<$ty> = $x[0].into();
+        let mut o: Block<$ty> = [0u8; $bs].into();
+        g_dir!($dir, block_b2b, $c, &i0, &mut o);
+        ok &= i0.0 == $x[0];
+        if M >= 1 { ok &= o == r[0]; }
+        Some(ok)
+    }};
+}
+
+/// C15 mixed directions, one half (see g_mixed): after $first(x) on the instance, $second(x) returns what a pristine
+/// instance with the same state returns; instance bytes unchanged.
+#[allow(unused_macros)]
+macro_rules! g_mixed_half {
+    ($name:ident, $ty:ty, $bs:expr, $valid:expr, $first:ident, $second:ident $(, stubs: [$(($o:path, $r:path)),*])?) => {
+        verif_harness! {
+            name: $name,
+            bytes: core::mem::size_of::<$ty>() + $bs,
+            unwind: 5000,
+            $(stubs: [$(($o, $r)),*],)?
+            prop: |inp| {
+                const S: usize = core::mem::size_of::<$ty>();
+                let valid: fn(&[u8]) -> bool = $valid;
+                vassume!(valid(&inp[..S]));
+                let mut a = core::mem::MaybeUninit::<$ty>::uninit();
+                generic::fill(&mut a, &inp[..S]);
+                let mut fresh = core::mem::MaybeUninit::<$ty>::uninit();
+                generic::fill(&mut fresh, &inp[..S]);
+                let x: [u8; $bs] = take(&inp[..], S);
+                let mut rx: cipher::Block<$ty> = x.into();
+                g_dir!($second, block, generic::as_ref(&fresh), &mut rx);
+                let mut t: cipher::Block<$ty> = x.into();
+                g_dir!($first, block, generic::as_ref(&a), &mut t);
+                let mut dx: cipher::Block<$ty> = x.into();
+                g_dir!($second, block, generic::as_ref(&a), &mut dx);
+                vcheck!(dx == rx);
+                let mut diff = 0u8;
+                let mut i = 0;
+                while i < S {
+                    diff |= generic::peek(&a, i) ^ inp[i];
+                    i += 1;
+                }
+                Some(diff == 0)
+            }
+        }
+    };
+}
+
 pub fn always(_: &[u8]) -> bool {
     true
 }
